@@ -128,8 +128,13 @@ static std::string runCase(const Opts& o) {
         phase = "run";
         if (!o.noexec) {
             for (int s = 0; s < o.shots; ++s) {
-                runtime::RuntimeEvaluator ev;
-                if (o.quiet) ev.setEcho(false);      // as the CLI does for every shot of a multi-shot run without --echo=all
+                // quiet: each shot configured exactly as cli.cpp configures the shots of a multi-shot run without --echo=all -
+                // the QASM log only in the last shot, echo suppressed, exit warnings only in the last shot
+                runtime::RuntimeEvaluator ev(o.quiet ? (s == o.shots - 1) : true);
+                if (o.quiet) {
+                    ev.setEcho(false);
+                    if (s < o.shots - 1) ev.setWarnOnExit(false);
+                }
                 try {
                     ev.execute(*program);
                 } catch (...) {
